@@ -1333,7 +1333,7 @@ func definersRule(id string) func(w *World, r *Report) {
 }
 
 func rC12GetEnvBody(w *World, r *Report) {
-	ru := r.Rule("R12.4", "GetEnv modifier: everything but SetEnvVar is guarded by value != \"\"; the seven scalar kinds are handled; non-bool kinds Save the variable's text verbatim; bool Saves the lower-cased text only when it equals \"true\" or \"false\"; SetCalled receives the variable's name", 9)
+	ru := r.Rule("R12.4", "GetEnv modifier: everything but SetEnvVar is guarded by value != \"\"; the seven scalar kinds are handled, the multi-value kinds and the counter are left alone; non-bool kinds Save the variable's text verbatim; bool Saves the lower-cased text only when it equals \"true\" or \"false\"; SetCalled receives the variable's name", 9)
 	fn := w.Fn("(*getoptions.GetOpt).GetEnv$1")
 	if fn == nil {
 		ru.Undecided("anchor", "-", "GetEnv closure not found")
@@ -1454,6 +1454,23 @@ func rC12GetEnvBody(w *World, r *Report) {
 		} else {
 			ru.Bad(key, w.IPos(ksaves[0]), why)
 		}
+	}
+	// the multi-value kinds and the counter are not filled from the environment: what they hold comes from the
+	// command line alone (values saved here would precede - not be overridden by - the ones given on the command line)
+	for _, k := range []string{"StringRepeatType", "IntRepeatType", "Float64RepeatType", "StringMapType", "IncrementType"} {
+		kc, _ := w.Obj("option", k).(*types.Const)
+		if kc == nil {
+			continue
+		}
+		kval, _ := constantInt64(kc)
+		reach := ig.reachFromE([]int{0}, nil, kindEdgeFilter(w, kval, getenv))
+		pos := ""
+		for _, c := range saves {
+			if reach[ig.idx[c]] {
+				pos = w.IPos(c)
+			}
+		}
+		ru.Check(pos == "", "GetEnv/not-for/"+k, w.Pos(fn.Pos()), "no Save for this kind", "GetEnv saves into an option of kind "+k+" (at "+pos+"): the values given on the command line are appended to / merged with the variable's instead of taking precedence")
 	}
 	// SetEnvVar(name)
 	okEnv := false
